@@ -163,31 +163,50 @@ func ProofEquals(se types.StateElement, b *ref.Built) error {
 
 // Membership probes, through the public ValidateTransactionElements route.
 
+// BatchPrefix, when set, is a transaction of genuine live elements (inputs, a revised contract, contracts resolved by
+// expiration, renewal and storage proof) that every probe below places in front of the element it asks about: the
+// element under test is then the last of its list and sits behind resolutions of every kind, as in a transaction
+// that batches several operations. The verdict for the whole transaction is the verdict for the probed element,
+// because everything in the prefix is genuine.
+var BatchPrefix *types.V2Transaction
+
+func batched(t types.V2Transaction) types.V2Transaction {
+	if BatchPrefix == nil {
+		return t
+	}
+	p := CloneV2(*BatchPrefix)
+	p.SiacoinInputs = append(p.SiacoinInputs, t.SiacoinInputs...)
+	p.SiafundInputs = append(p.SiafundInputs, t.SiafundInputs...)
+	p.FileContractRevisions = append(p.FileContractRevisions, t.FileContractRevisions...)
+	p.FileContractResolutions = append(p.FileContractResolutions, t.FileContractResolutions...)
+	return p
+}
+
 // LiveSC reports whether the accumulator accepts e as an unspent siacoin element.
 func LiveSC(acc consensus.ElementAccumulator, e types.SiacoinElement) bool {
-	return acc.ValidateTransactionElements(types.V2Transaction{SiacoinInputs: []types.V2SiacoinInput{{Parent: e.Copy()}}}) == nil
+	return acc.ValidateTransactionElements(batched(types.V2Transaction{SiacoinInputs: []types.V2SiacoinInput{{Parent: e.Copy()}}})) == nil
 }
 
 // LiveSF reports whether the accumulator accepts e as an unspent siafund element.
 func LiveSF(acc consensus.ElementAccumulator, e types.SiafundElement) bool {
-	return acc.ValidateTransactionElements(types.V2Transaction{SiafundInputs: []types.V2SiafundInput{{Parent: e.Copy()}}}) == nil
+	return acc.ValidateTransactionElements(batched(types.V2Transaction{SiafundInputs: []types.V2SiafundInput{{Parent: e.Copy()}}})) == nil
 }
 
 // LiveV2FC reports whether the accumulator accepts e as an unresolved v2 contract (as a revision parent).
 func LiveV2FC(acc consensus.ElementAccumulator, e types.V2FileContractElement) bool {
-	return acc.ValidateTransactionElements(types.V2Transaction{FileContractRevisions: []types.V2FileContractRevision{{Parent: e.Copy()}}}) == nil
+	return acc.ValidateTransactionElements(batched(types.V2Transaction{FileContractRevisions: []types.V2FileContractRevision{{Parent: e.Copy()}}})) == nil
 }
 
 // LiveV2FCRes is LiveV2FC through the resolution-parent route.
 func LiveV2FCRes(acc consensus.ElementAccumulator, e types.V2FileContractElement) bool {
-	return acc.ValidateTransactionElements(types.V2Transaction{FileContractResolutions: []types.V2FileContractResolution{{Parent: e.Copy(), Resolution: &types.V2FileContractExpiration{}}}}) == nil
+	return acc.ValidateTransactionElements(batched(types.V2Transaction{FileContractResolutions: []types.V2FileContractResolution{{Parent: e.Copy(), Resolution: &types.V2FileContractExpiration{}}}})) == nil
 }
 
 // LiveCI reports whether the accumulator accepts e as an ancestor chain index.
 func LiveCI(acc consensus.ElementAccumulator, e types.ChainIndexElement) bool {
 	// the resolution parent is ephemeral-marked so that only the chain index is judged
 	parent := types.V2FileContractElement{StateElement: types.StateElement{LeafIndex: types.UnassignedLeafIndex}}
-	return acc.ValidateTransactionElements(types.V2Transaction{FileContractResolutions: []types.V2FileContractResolution{{Parent: parent, Resolution: &types.V2StorageProof{ProofIndex: e.Copy()}}}}) == nil
+	return acc.ValidateTransactionElements(batched(types.V2Transaction{FileContractResolutions: []types.V2FileContractResolution{{Parent: parent, Resolution: &types.V2StorageProof{ProofIndex: e.Copy()}}}})) == nil
 }
 
 // LiveFC reports whether block validation's supplement check accepts e as an unresolved v1
